@@ -103,6 +103,13 @@ def err_bound(n):
 U = Fraction(1, 2 ** 53)
 
 
+def thm_tol_any(n):
+    """proved bound for EVERY evaluation order of the sums / dot products (QE.C02.gthSolveAnyOrder_accuracy,
+    gthSolveNp_accuracy): E(n)+1 factors — used for the use_jit=False twin (NumPy pairwise sum, BLAS dot)"""
+    E = err_bound(n) + 1
+    return E * U / (1 - E * U)
+
+
 def thm_tol(n):
     """(1+u)^E(n) - 1 at u = 2^-53: the proved relative-error bound of the sequential (Numba) kernel in the
     standard model (no underflow/overflow), exact as a Fraction upper bound E u / (1 - E u)"""
@@ -250,18 +257,17 @@ def mk_gth_cmp(ctx, n, jit):
             return "support differs: model %s code %s" % (sup_q, sup_x)
         if sup_x and max(sup_x) != m - 1:
             return "effective size differs: model m=%d, code's last non-zero index %d" % (m, max(sup_x))
+        tt = thm_tol(n) if jit else thm_tol_any(n)
         for i, (a, b) in enumerate(zip(x, q)):
+            if abs(Fraction(a) - b) > tt * b:
+                return ("component %d outside the PROVED bound %.3e of the standard model (%s): code %r exact %s" % (
+                    i, float(tt), "sequential kernel, E(n)" if jit else "any evaluation order, E(n)+1", a, float(b)))
             if abs(Fraction(a) - b) > tol * b:
-                return "component %d outside the envelope: code %r exact %s" % (i, a, float(b))
-        if jit:
-            tt = thm_tol(n)
-            for i, (a, b) in enumerate(zip(x, q)):
-                if abs(Fraction(a) - b) > tt * b:
-                    return ("component %d outside the PROVED bound E(n)u/(1-E(n)u)=%.3e of the standard model: "
-                            "code %r exact %s" % (i, float(tt), a, float(b)))
-            worst = max([abs(Fraction(a) - b) / b for a, b in zip(x, q) if b != 0] or [Fraction(0)])
-            ctx.extra.setdefault("_worst_rel", {})
-            ctx.extra["_worst_rel"][n] = max(ctx.extra["_worst_rel"].get(n, Fraction(0)), worst)
+                ctx.count("envelope-1e-12n^3:exceeded")      # cannot happen while the proved bound is the smaller one
+        worst = max([abs(Fraction(a) - b) / b for a, b in zip(x, q) if b != 0] or [Fraction(0)])
+        wk = "_worst_rel" if jit else "_worst_rel_np"
+        ctx.extra.setdefault(wk, {})
+        ctx.extra[wk][n] = max(ctx.extra[wk].get(n, Fraction(0)), worst)
         same = (parts["f"] == impl)
         ctx.count("fidelity:%s:%s" % ("jit" if jit else "numpy", "bit-identical" if same else "differs"))
         if jit and not same:
@@ -328,7 +334,7 @@ def run(ctx):
                 "overwrite x use_jit x C/F order and through MarkovChain dense / CSR; a case is non-trivial when n>=3 and "
                 "the matrix is not the identity; distinct by request line" % nmax)
 
-    def spec_gth(key, A, x, F, classes, what):
+    def spec_gth(key, A, x, F, classes, what, tol=None):
         """gth_solve's output on (possibly reducible) A must be the exact stationary vector of one recurrent class"""
         n = len(F)
         sup = [i for i in range(n) if float(x[i]) != 0]
@@ -337,7 +343,7 @@ def run(ctx):
             ctx.spec_fail(key, "%s: support %s is not a recurrent class (classes %s)" % (what, sup, classes),
                           {"op": what, "A": fxm(A), "A_float": np.asarray(A, dtype=float).tolist(), "x": list(map(float, x))})
             return
-        why = check_row(x, F, cl, exact_null(F, cl), tol_for(n))
+        why = check_row(x, F, cl, exact_null(F, cl), tol if tol is not None else tol_for(n))
         if why:
             ctx.spec_fail(key, "%s: %s" % (what, why),
                           {"op": what, "A": fxm(A), "A_float": np.asarray(A, dtype=float).tolist(), "x": list(map(float, x))})
@@ -364,7 +370,8 @@ def run(ctx):
                     if changed and not ow:
                         ctx.spec_fail("gth_argument_modified", "gth_solve(overwrite=False) modified its argument",
                                       {"A": fxm(A), "use_jit": jit, "order": order})
-                    spec_gth("gth_solve", A, x, F, classes, "gth_solve(overwrite=%s,use_jit=%s,order=%s)" % (ow, jit, order))
+                    spec_gth("gth_solve", A, x, F, classes, "gth_solve(overwrite=%s,use_jit=%s,order=%s)" % (ow, jit, order),
+                             tol=thm_tol(n) if jit else thm_tol_any(n))
         ref = outs[(False, True, "C")]
         tol = float(tol_for(n))
         for key, x in outs.items():
@@ -627,7 +634,7 @@ def run(ctx):
                     sup = [i for i in range(n) if float(x[i]) != 0]
                     cl = next((c for c in classes if c == sup), None)
                     why = ("support %s is not a recurrent class %s" % (sup, classes)) if cl is None else \
-                        check_row(x, F, cl, exact_null(F, cl), thm_tol(n) if jit else tol_for(n))
+                        check_row(x, F, cl, exact_null(F, cl), thm_tol(n) if jit else thm_tol_any(n))
                     if why:
                         ctx.spec_fail("gth_solve_forms", "%s: %s" % (what, why),
                                       {"op": what, "A_values_as_passed": fxm(V), "A_float": V.tolist(), "dtype": tagdt,
@@ -880,15 +887,20 @@ def run(ctx):
     ctx.assumptions.append(
         "component-wise relative accuracy: PROVED in the standard model of rounded arithmetic (QE.C02.gthSolve_accuracy: "
         "every component within (1+u)^E(n)-1, E(1..8)=2,11,44,157,542,1847,6232,20825; gthSolve_accuracy_double: "
-        "<= 1e-12*n^3 for n<=8 at u=2^-53) for the sequential Numba kernel; ASSUMED: IEEE double arithmetic obeys the "
-        "standard model on these inputs (no underflow/overflow/subnormals), and the use_jit=False twin (NumPy pairwise "
-        "np.sum, BLAS dot: other summation orders, possibly FMA) stays inside the same envelope - that twin is tested only")
+        "<= 1e-12*n^3 for n<=8 at u=2^-53) for the sequential Numba kernel, and for EVERY evaluation order of the sums and "
+        "dot products with E(n)+1 factors (gthSolveAnyOrder_accuracy; sum_any_tree, dot_fma; gthSolveNp_accuracy for the "
+        "use_jit=False twin: NumPy pairwise np.sum, BLAS dot in any blocking, with or without FMA); both twins are judged by "
+        "these proved bounds, the envelope 1e-12*n^3 is only counted. ASSUMED: every single IEEE operation obeys the standard "
+        "model on these inputs (no underflow/overflow/subnormals; extended-precision accumulation inside BLAS is covered)")
     ctx.run_cases(cases)
+    worst_np = ctx.extra.pop("_worst_rel_np", {})
     worst = ctx.extra.pop("_worst_rel", {})
     ctx.extra["accuracy_bound_vs_envelope"] = [
         {"n": k, "E(n)": err_bound(k), "proved_bound_u=2^-53": float(thm_tol(k)), "harness_envelope_1e-12*n^3": float(tol_for(k)),
          "larger": "envelope" if tol_for(k) > thm_tol(k) else "proved bound",
-         "worst_observed_rel_err_jit": float(worst.get(k, 0))}
+         "worst_observed_rel_err_jit": float(worst.get(k, 0)),
+         "proved_bound_any_order_(E(n)+1)": float(thm_tol_any(k)),
+         "worst_observed_rel_err_numpy_twin": float(worst_np.get(k, 0))}
         for k in range(1, nmax + 1)]
     jit_id = ctx.counters.get("fidelity:jit:bit-identical", 0)
     jit_all = jit_id + ctx.counters.get("fidelity:jit:differs", 0)
